@@ -183,6 +183,10 @@ func (f *Func) SourcesAt(e ast.Expr, at ast.Node) []Source {
 		case *ast.CallExpr:
 			out = append(out, Source{Kind: "call", Call: x, Key: CalleeKey(info, x), Idx: -1, Field: field, Expr: e})
 			return
+		case *ast.BinaryExpr:
+			walk(x.X, field, depth+1, at)
+			walk(x.Y, field, depth+1, at)
+			return
 		case *ast.CompositeLit:
 			if len(x.Elts) == 0 {
 				out = append(out, Source{Kind: "zero", Expr: e, Field: field})
